@@ -1777,16 +1777,22 @@ def ignore_comments(string):
     """Ignore comments in given string by replacing them with spaces. This
     reduces the parsing time by roughly a factor of two.
 
+    Newlines within multi line comments are kept, so that line
+    numbers in error messages refer to the given string, and comment
+    delimiters within character strings ("...") are not treated as
+    comments.
+
     """
 
     comments = [
         (mo.start(), mo.group(0))
-        for mo in re.finditer(r'(/\*|\*/|--|\n)', string)
+        for mo in re.finditer(r'(/\*|\*/|--|\n|")', string)
     ]
 
     comments.sort()
 
     in_single_line_comment = False
+    in_character_string = False
     multi_line_comment_depth = 0
     start_offset = 0
     non_comment_offset = 0
@@ -1810,8 +1816,15 @@ def ignore_comments(string):
 
                 if multi_line_comment_depth == 0:
                     offset += 2
-                    chunks.append(' ' * (offset - start_offset))
+                    chunks.append(re.sub(r'[^\n]',
+                                         ' ',
+                                         string[start_offset:offset]))
                     non_comment_offset = offset
+        elif in_character_string:
+            if kind == '"':
+                in_character_string = False
+        elif kind == '"':
+            in_character_string = True
         elif kind == '--':
             in_single_line_comment = True
             start_offset = offset
